@@ -36,7 +36,7 @@ COPY_PREFIXES = ["SPDX-FileCopyrightText:", "SPDX-SnippetCopyrightText:", "SPDX-
                  "SPDX-FileCopyrightText: Copyright", "SPDX-FileCopyrightText: Copyright (C)", "SPDX-FileCopyrightText: Copyright ©",
                  "Copyright", "Copyright (C)", "Copyright (c)", "Copyright ©", "©"]
 FORMS = ["single", "inline-multi", "block-multi"]
-DECOS = ["none", "frame", "frame-tab", "frame-glued", "indent-spaces", "indent-tab", "trailing-blanks", "blanks-after-terminator", "own-terminator-twice", "foreign-terminators-ab", "foreign-terminators-ba"]
+DECOS = ["none", "frame", "frame-tab", "frame-glued", "indent-spaces", "indent-tab", "trailing-blanks", "blanks-after-terminator", "terminator-glued", "own-terminator-twice", "foreign-terminators-ab", "foreign-terminators-ba"]
 
 
 def styles():
@@ -94,6 +94,13 @@ def make_lines(cls, form, deco, body, kind):
         if form != "inline-multi":
             return None
         post = post + "  \t"
+    elif deco == "terminator-glued":
+        # the terminator follows the value without a blank: '<!--Tag: value-->', and as the end of a block's last line ' * Tag: value*/'
+        if form == "single":
+            return None
+        if form == "inline-multi":
+            line = f"{lead}{body}"
+        post = cls.MULTI_LINE.end
     elif deco == "own-terminator-twice":
         if form != "inline-multi":
             return None
@@ -116,7 +123,7 @@ def bounds(tier, seed):
     return {"styles": len(styles()), "forms": FORMS, "decorations": DECOS, "licences": len(LICENCES), "holders": len(HOLDERS), "year_forms": YEARS,
             "copyright_prefixes": COPY_PREFIXES, "contributors": len(CONTRIBUTORS),
             "slice_A": "quick: every (kind, value) with every style x form x decoration, copyright holders x years reduced to a Latin square; thorough: full holders x years",
-            "slice_B": "3 line endings x 4 positions x 3 snippet placements x 6 (tag, style) pairs", "window": 4096}
+            "slice_D": "every ordered pair (3 styles) and every triple (python) of the licence values as separate tags of one comment", "slice_B": "3 line endings x 4 positions x 3 snippet placements x 6 (tag, style) pairs", "window": 4096}
 
 
 def cases(tier, seed):
@@ -136,6 +143,12 @@ def cases(tier, seed):
         for d in range(0, 18):
             for ending in ("\n", "\r\n"):
                 yield {"k": "B2", "offset": 4096 * k - d, "ending": ending}
+    for st in ("python", "c", "html"):
+        for pair in itertools.permutations(range(len(LICENCES)), 2):
+            yield {"k": "D", "style": st, "lics": list(pair)}
+        for tri in itertools.combinations(range(len(LICENCES)), 3):
+            if st == "python":
+                yield {"k": "D", "style": st, "lics": list(tri)}
     for i, lic in enumerate(LICENCES):
         for broken in ("AND AND", "(", "WITH", "OR )"):
             yield {"k": "C", "lic": lic, "broken": broken, "where": "header" if i % 2 else "dot-license"}
@@ -322,7 +335,25 @@ def ev_C(c) -> R:
     return r
 
 
-_EV = {"A": ev_A, "B": ev_B, "B2": ev_B2, "C": ev_C}
+def ev_D(c) -> R:
+    """Several licence tags in one comment: each is read as written, none is rewritten, merged or dropped because of the others."""
+    r = R()
+    lics = [LICENCES[i] for i in c["lics"]]
+    cls = next(s for s in styles() if s.SHORTHAND == c["style"])
+    body = "\n".join(["SPDX-FileCopyrightText: 2020 Jane Doe"] + [f"SPDX-License-Identifier: {l}" for l in lics])
+    text = cls.create_comment(body) + "\n"
+    got = observe(text)
+    exp = (sorted(set(lics)), ["SPDX-FileCopyrightText: 2020 Jane Doe"], [])
+    r.evals = 1
+    r.validated = 1
+    if got != exp:
+        r.violation(f"D|several-tags|n={len(lics)}", f"style {c['style']}: text {text!r} is read as {got}, expected {exp}", text=text)
+    r.outcome = "D-ok" if not r.viol else "D-diff"
+    r.tags.append("D")
+    return r
+
+
+_EV = {"A": ev_A, "B": ev_B, "B2": ev_B2, "C": ev_C, "D": ev_D}
 
 
 def evaluate(c) -> R:
